@@ -699,6 +699,13 @@ class ModuleVistor(NodeVisitor):
         else:
             obj = self.system.objForFullName(full_name)
             if obj is None:
+                # The target might have been reparented since the name was
+                # recorded: follow the alias left at the original location.
+                try:
+                    obj = self.system.find_object(full_name)
+                except LookupError:
+                    obj = None
+            if obj is None:
                 warn("Unable to figure out target for __doc__ assignment: "
                      "computed full name not found: " + full_name)
 
